@@ -145,14 +145,14 @@ Proof.
     rewrite S. cbn [bind].
     assert (D1 : v_W v1 / us_per_day = k) by (cbn [v1 upd fst v_W]; rewrite upd_val; lia).
     rewrite D1 in D2.
-    destruct (walk_back_dst WALK_FUEL (upd v1 (W2, f2)) ws Hk RW2 Hws) as [W3 [f3 [Hw [R3 D3]]]];
-      cbn [upd fst snd v_W v_zone v_kind v_fold v1]; rewrite ?D2.
-    + replace ((k + -1 - ws) mod 7) with (j - 1) by (unfold j; lia). unfold WALK_FUEL. lia.
-    + replace ((k + -1 - ws) mod 7) with (j - 1) by (unfold j; lia). lia.
-    + replace ((k + -1 - ws) mod 7) with (j - 1) by (unfold j; lia). intros W'' HW''. apply St. rewrite Elo, Ex, upd_val in *. lia.
-    + cbn [upd fst snd v_W v_zone v_kind v_fold v1] in Hw. rewrite D2 in D3.
-      replace ((k + -1 - ws) mod 7) with (j - 1) in D3 by (unfold j; lia).
-      rewrite Hw. cbn [bind].
+    assert (Ej : (k + -1 - ws) mod 7 = j - 1) by (unfold j; lia).
+    pose proof (walk_back_dst WALK_FUEL (upd v1 (W2, f2)) ws Hk RW2 Hws) as WB. cbv zeta in WB.
+    cbn [upd fst snd v_W v_zone v_kind v_fold v1] in WB. rewrite D2, Ej in WB.
+    destruct WB as [W3 [f3 [Hw [R3 D3]]]].
+    + unfold WALK_FUEL. lia.
+    + lia.
+    + intros W'' HW''. apply St. rewrite Elo, Ex. rewrite upd_val in *. lia.
+    + cbn [upd fst snd v_W v_zone v_kind v_fold v1]. rewrite Hw. cbn [bind].
       assert (E3 : W3 / us_per_day * us_per_day = lo) by (rewrite Elo, D3; f_equal; lia).
       rewrite (start_of_day_dst (mkdtv (v_zone v) (v_kind v) W3 f3) Hk); cbn [v_W v_zone v_fold]; [|exact R3|rewrite E3; exact Hslo].
       rewrite E3. exists f3. split; [reflexivity|apply Idem].
